@@ -1,10 +1,118 @@
 """C02 — decoding returns exactly what a conforming SBE encoder wrote."""
+import concurrent.futures as cf
+import os
+
+from hypothesis import HealthCheck, Phase, given, seed as hseed, settings, strategies as st
+
+from vlib import common, constexprgen, pool as poolmod, values
 from vlib.checks import decode_common
 
 
+def _cx_one(args):
+    edir, cfg, tag = args
+    entry = poolmod.Entry(edir)
+    M = entry.model
+    cases = []
+
+    @hseed(common.seed() + 77)
+    @settings(max_examples=4, database=None, deadline=None, suppress_health_check=list(HealthCheck), phases=[Phase.generate])
+    @given(st.data())
+    def draw(data):
+        mi = data.draw(st.integers(0, len(M.messages) - 1))
+        L = M.messages[mi]
+        vals = data.draw(values.level_values(L, max_entries=2, inflate=data.draw(st.booleans())))
+        img, size = M.encode_message(L, vals, background=0xA7)
+        if len(img) <= 1500:
+            cases.append((mi, L, img, vals))
+
+    draw()
+    cases = cases[:3]
+    if not cases:
+        return {"dir": edir, "cfg": poolmod.cfg_name(cfg), "cases": 0, "problems": []}
+    src, expected = constexprgen.CxGen(M).generate(cases)
+    sp = os.path.join(edir, "cx_%s.cpp" % tag)
+    exe = os.path.join(edir, "cx_%s" % tag)
+    with open(sp, "w") as f:
+        f.write(src)
+    r = poolmod.run_compile(poolmod.compile_cmd(cfg, os.path.join(edir, "out"), sp, exe))
+    problems = []
+    if r.returncode != 0:
+        problems.append(("constexpr-decode-not-constant", {"source": src[:20000], "config": poolmod.cfg_name(cfg)},
+                         "constexpr decode TU does not compile: %s" % "; ".join(poolmod.first_errors(r.stdout.decode(errors="replace"), 3))))
+        return {"dir": edir, "cfg": poolmod.cfg_name(cfg), "cases": len(cases), "problems": problems, "numbers": 0}
+    out = common.run([exe]).stdout.decode(errors="replace")
+    got = {}
+    for line in out.splitlines():
+        if line.startswith("CASE "):
+            parts = line.split()
+            got[int(parts[1])] = [int(x, 16) for x in parts[3:]]
+    numbers = 0
+    for ci, exp in enumerate(expected):
+        numbers += len(exp)
+        if got.get(ci) != exp:
+            g = got.get(ci) or []
+            j = next((i for i, (a, b) in enumerate(zip(exp, g)) if a != b), min(len(exp), len(g)))
+            problems.append(("constexpr-decode-mismatch", {"source": src[:20000], "config": poolmod.cfg_name(cfg), "case": ci},
+                             "constant-evaluated decode of message %s differs at value #%d: expected %s got %s" % (
+                                 cases[ci][1].name, j, exp[j:j + 3], g[j:j + 3])))
+    return {"dir": edir, "cfg": poolmod.cfg_name(cfg), "cases": len(cases), "problems": problems, "numbers": numbers,
+            "sample": {"schema": edir.split("/")[-1], "config": poolmod.cfg_name(cfg), "constexpr_values": expected[0][:16]}}
+
+
+def constexpr_part(res, t):
+    """constant-evaluated decode (C++20/23, both compilers) over pool schemas"""
+    p = poolmod.build_pool(t)
+    entries = [e for e in p.entries if e.model.messages]
+    n = 16 if t == "quick" else len(entries)
+    cfgs = [("g++", "20"), ("clang++", "20")] if t == "quick" else [("g++", "20"), ("g++", "23"), ("clang++", "20"), ("clang++", "23")]
+    jobs = []
+    for i, e in enumerate(entries[:n]):
+        for j, cfg in enumerate(cfgs):
+            if t == "quick" and (i + j) % 2:
+                continue
+            jobs.append((e.dir, cfg, poolmod.cfg_name(cfg)))
+    with cf.ProcessPoolExecutor(max_workers=common.NCPU) as ex:
+        outs = list(ex.map(_cx_one, jobs))
+    tot = 0
+    for o in outs:
+        res.count(o.get("numbers", 0))
+        tot += o["cases"]
+        res.cls("constexpr_tus")
+        if o.get("sample") and len(res.samples) < 8:
+            res.sample(o["sample"])
+        if o["cases"]:
+            res.nontriv("cx:%s:%s" % (o["dir"], o["cfg"]))
+        for sig, case, text in o["problems"]:
+            e = poolmod.Entry(o["dir"])
+            case.update({"schema_xml": e.xml, "model": e.sch})
+            res.violation(sig, case, "[%s] %s" % (o["cfg"], text))
+    res.extra["constexpr"] = {"tus": len(jobs), "images": tot}
+
+
 def run(t, budget=1.0):
-    return decode_common.run("C02", t, budget, inflate=False)
+    return decode_common.run("C02", t, budget, inflate=False, extra_part=constexpr_part)
 
 
 def replay(path):
+    import json
+    case = json.load(open(path))["case"]
+    if "source" in case:
+        from vlib import poolcheck
+        entry = poolcheck.replay_entry(case, [])
+        if entry is None:
+            return 1
+        import shutil
+        try:
+            cfg = [c for c in poolmod.CONFIGS if poolmod.cfg_name(c) == case["config"]][0]
+            sp = os.path.join(entry.dir, "cx.cpp")
+            open(sp, "w").write(case["source"])
+            r = poolmod.run_compile(poolmod.compile_cmd(cfg, os.path.join(entry.dir, "out"), sp, os.path.join(entry.dir, "cx")))
+            print(r.stdout.decode(errors="replace")[-1500:])
+            if r.returncode:
+                return 1
+            print(common.run([os.path.join(entry.dir, "cx")]).stdout.decode()[:1500])
+            print("replay: the stored TU compiles now; compare the CASE lines with the replay file's description")
+            return 0
+        finally:
+            shutil.rmtree(entry.dir, ignore_errors=True)
     return decode_common.replay(path)
